@@ -136,12 +136,15 @@ def answer (p : ProbeCtx) (q : String) : String :=
   | ["eq", a, b] =>
     match parseVal a, parseVal b, methodOf p .partialEq with
     | some a, some b, some body =>
-      s!"spec={specEq probeOps it a b} eval={resStr it (runMethod p.cx body a (some b))}"
+      s!"spec={specEq probeOps it a b} eval={resStr it (runMethod p.cx body a (some b))} ne={neOf (specEq probeOps it a b)}"
     | _, _, _ => "bad-query"
   | ["pcmp", a, b] =>
     match parseVal a, parseVal b, methodOf p .partialOrd with
     | some a, some b, some body =>
-      s!"spec={optOrdStr (specPartialCmp probeOps p.cx.ti it a b)} eval={resStr it (runMethod p.cx body a (some b))}"
+      let o := specPartialCmp probeOps p.cx.ti it a b
+      let bit := fun (x : Bool) => if x then "1" else "0"
+      -- `ops=`: what `<`, `<=`, `>`, `>=` print, by `core`'s provided methods over `partial_cmp`
+      s!"spec={optOrdStr o} eval={resStr it (runMethod p.cx body a (some b))} ops={bit (ltOf o)}{bit (leOf o)}{bit (gtOf o)}{bit (geOf o)}"
     | _, _, _ => "bad-query"
   | ["cmp", a, b] =>
     match parseVal a, parseVal b, methodOf p .ord with
